@@ -6,6 +6,7 @@ import glob, hashlib, json, os, sys
 ROOT = os.path.dirname(os.path.dirname(os.path.abspath(__file__)))
 out = os.path.join(ROOT, "corpus", "netlist")
 os.makedirs(out, exist_ok=True)
+denied = json.load(open(os.path.join(ROOT, "corpus", "denied.json"))) if os.path.exists(os.path.join(ROOT, "corpus", "denied.json")) else {}
 n = 0
 for f in sorted(glob.glob(os.path.join(ROOT, "replays", "*.json"))):
     r = json.load(open(f))
@@ -17,7 +18,7 @@ for f in sorted(glob.glob(os.path.join(ROOT, "replays", "*.json"))):
     canon = json.dumps(c["desc"], sort_keys=True)
     h = hashlib.sha1(canon.encode()).hexdigest()[:12]
     p = os.path.join(out, h + ".json")
-    if os.path.exists(p):
+    if os.path.exists(p) or h in denied:
         continue
     json.dump({"origin": f"{r.get('property')} {r.get('key')}: {str(r.get('what'))[:200]}", "desc": c["desc"],
                "tags": c.get("tags") or {}}, open(p, "w"), indent=1, sort_keys=True)
